@@ -15,7 +15,7 @@ func init() {
 		Fn:    checkC13,
 		Explanation: "Decides, on every path of every Write([]byte)(int,error) method defined in non-test code, the SHAPE of the returned pair: " +
 			"(len(original parameter), nil), (k, provably non-nil error) or an unchanged relay of an inner Write(original parameter); " +
-			"for the multi-syncer: identical parameter to every sink, no exit from the loop, every error appended, count is a min-fold with an accepted first-element/seed idiom, Sync visits all sinks; " +
+			"for the multi-syncer, by path exploration over up to two sinks whose Write outcome is forked (count 0, 1 or 2; error or not): every sink is given the caller's bytes, the count returned is the smallest any sink reported (a genuine 0 included), the error returned is non-nil exactly when some sink failed - however the code accumulates them; every sink is visited with no early exit; Sync likewise; " +
 			"for Lock/AddSync: results relayed unchanged, no double wrapping, mutex held across the inner call on every path and released at every exit. " +
 			"NOT decided: that wrapped writers honour the contract themselves, payload sizes, runtime interleavings.",
 		Assumptions: commonAssumptions,
